@@ -116,6 +116,8 @@ pub enum Channel {
     None,
     File,
     Stdin,
+    /// the path /dev/stdin (not a regular file: its size is reported as 0), payload on stdin
+    DevStdin,
 }
 
 impl Channel {
@@ -124,6 +126,7 @@ impl Channel {
             Channel::None => "-",
             Channel::File => "file",
             Channel::Stdin => "stdin",
+            Channel::DevStdin => "dev-stdin",
         }
     }
 }
@@ -375,6 +378,7 @@ fn sub_tokens(cmd: Cmd, channel: Channel, payload: &Payload, salt: usize) -> Vec
     let pos = match channel {
         Channel::File => PLACEHOLDER.to_string(),
         Channel::Stdin => "-".to_string(),
+        Channel::DevStdin => "/dev/stdin".to_string(),
         Channel::None => String::new(),
     };
     let mut flags: Vec<String> = vec![];
@@ -442,7 +446,7 @@ fn render(cmd: Cmd, channel: Channel, payload: &Payload, phrase: &str, pass: &st
     }
     args.extend(sub_tokens(cmd, channel, payload, salt / 11));
     inv.args = args;
-    if channel == Channel::Stdin {
+    if channel == Channel::Stdin || channel == Channel::DevStdin {
         inv = inv.stdin(&payload.bytes());
     }
     inv
@@ -622,6 +626,10 @@ fn cells() -> Vec<(Cmd, Channel)> {
             v.push((c, ch));
         }
     }
+    // every payload-reading command also through a path that is not a regular file
+    for c in [Cmd::SignMessage, Cmd::SignTx, Cmd::SignTxSigOnly, Cmd::SignTypedData, Cmd::HashData, Cmd::HashMessage, Cmd::HashTx, Cmd::HashTypedData, Cmd::HashTypedDataMsg] {
+        v.push((c, Channel::DevStdin));
+    }
     v
 }
 
@@ -685,7 +693,7 @@ fn build_case(u: &mut U, cmd: Cmd, channel: Channel, forced: Option<(u8, Sources
     };
     let run = render(cmd, channel, &payload, &phrase, &passphrase, &selector, &sources, salt);
     let hash_run = cmd.matching_hash().map(|h| {
-        let ch = if u.bool() { Channel::File } else { Channel::Stdin };
+        let ch = [Channel::File, Channel::Stdin, Channel::File, Channel::Stdin, Channel::DevStdin][u.below(5)];
         render(h, ch, &payload, "", "", &Selector::Default, &sources, salt / 5)
     });
     let twin = (cmd.needs_account() && u.ratio(1, 3)).then(|| {
@@ -1175,7 +1183,7 @@ fn drain_timeouts(ctx: &mut Ctx) {
 
 pub fn run(ctx: &mut Ctx) {
     set_statics(ctx);
-    ctx.rule = "One case = (mnemonic of 12/15/18/21/24 words from uniform or all-0/all-1 entropy) x (passphrase: empty, ASCII incl. leading dash/blank/newline, non-ASCII from an NFKD-sensitive pool or random scalars of 13 Unicode ranges) x (selector: none, --account-index i with i in {0,1,2,2^31-1,2^31-2,<100,uniform 31-bit}, --hd-path of depth 1..8 from the C03/C14 valid-path generator or the default path spelled out, or both selectors) x (each of the four options independently as `--opt V`, `--opt=V`, `-m V` or environment variable MNEMONIC/PASSWORD/ACCOUNT_INDEX/HD_PATH; option order permuted) x (subcommand: address, export, public-key, sign message|transaction|transaction --signature-only|typeddata|raw, hash data|message|transaction|typeddata|typeddata --message-hash) x (payload by file path or `-` = stdin) x payload (bytes incl. empty/non-UTF-8/trailing newline/8 KiB..100 KB inputs that exceed one read chunk or pipe buffer; transactions of all kinds from the C06 generator, legacy-without-chain-id signed with --allow-missing-relay-protection; simple EIP-712 documents: one struct of atomic members, at most one nested struct and one array, any of the 31 domains; raw digests from the C05 digest strategy spelled 0x-lower (decided) or bare/upper-case (unspecified)). Oracle: the reference stack end to end (bit-string BIP-39 -> written-out PBKDF2 over NFKD(passphrase) -> BIP-32 on the harness's own secp256k1 -> EIP-55 / 0x secret / 0x04||X||Y; RFC 6979 reference signature over the reference EIP-191 / transaction / EIP-712 digest or the raw digest as given; signed-transaction bytes from the reference RLP model); stdout must be exactly that line plus newline with exit 0. Every `sign message|transaction|typeddata` case also runs the matching `hash` command on the same payload (independent channel), which must print the digest that was signed; `hash data` = Keccak-256 of the bytes; `--message-hash` = reference hashStruct(message). A third of the account cases re-run the configuration with every flag-provided option moved to the environment and vice versa: exit status and stdout must be identical. Both selectors (any flag/env combination): error exit, empty stdout. Before the generated cases an exhaustive matrix runs every account subcommand x selector kind (none/index/path/both) x flag-or-environment for each given option with a non-empty passphrase and index != 0 (288 configurations). Non-trivial: account case with index != 0 or a path or a passphrase or an environment-provided option (distinct by argv+env+stdin), or a hash case with a non-empty payload (distinct by command, channel, payload).".into();
+    ctx.rule = "One case = (mnemonic of 12/15/18/21/24 words from uniform or all-0/all-1 entropy) x (passphrase: empty, ASCII incl. leading dash/blank/newline, non-ASCII from an NFKD-sensitive pool or random scalars of 13 Unicode ranges) x (selector: none, --account-index i with i in {0,1,2,2^31-1,2^31-2,<100,uniform 31-bit}, --hd-path of depth 1..8 from the C03/C14 valid-path generator or the default path spelled out, or both selectors) x (each of the four options independently as `--opt V`, `--opt=V`, `-m V` or environment variable MNEMONIC/PASSWORD/ACCOUNT_INDEX/HD_PATH; option order permuted) x (subcommand: address, export, public-key, sign message|transaction|transaction --signature-only|typeddata|raw, hash data|message|transaction|typeddata|typeddata --message-hash) x (payload by file path, `-` = stdin, or the path /dev/stdin) x payload (bytes incl. empty/non-UTF-8/trailing newline/8 KiB..100 KB inputs that exceed one read chunk or pipe buffer; transactions of all kinds from the C06 generator, legacy-without-chain-id signed with --allow-missing-relay-protection; simple EIP-712 documents: one struct of atomic members, at most one nested struct and one array, any of the 31 domains; raw digests from the C05 digest strategy spelled 0x-lower (decided) or bare/upper-case (unspecified)). Oracle: the reference stack end to end (bit-string BIP-39 -> written-out PBKDF2 over NFKD(passphrase) -> BIP-32 on the harness's own secp256k1 -> EIP-55 / 0x secret / 0x04||X||Y; RFC 6979 reference signature over the reference EIP-191 / transaction / EIP-712 digest or the raw digest as given; signed-transaction bytes from the reference RLP model); stdout must be exactly that line plus newline with exit 0. Every `sign message|transaction|typeddata` case also runs the matching `hash` command on the same payload (independent channel), which must print the digest that was signed; `hash data` = Keccak-256 of the bytes; `--message-hash` = reference hashStruct(message). A third of the account cases re-run the configuration with every flag-provided option moved to the environment and vice versa: exit status and stdout must be identical. Both selectors (any flag/env combination): error exit, empty stdout. Before the generated cases an exhaustive matrix runs every account subcommand x selector kind (none/index/path/both) x flag-or-environment for each given option with a non-empty passphrase and index != 0 (288 configurations). Non-trivial: account case with index != 0 or a path or a passphrase or an environment-provided option (distinct by argv+env+stdin), or a hash case with a non-empty payload (distinct by command, channel, payload).".into();
     ctx.assumptions = vec![
         "hmac/sha2/sha3 primitives are correct; NFKD of the passphrase is taken from the unicode-normalization crate (its use by hdwallet is C02's subject)".into(),
         "the phrase is passed in canonical single-space form (other layouts are C01's subject)".into(),
@@ -1202,7 +1210,7 @@ pub fn run(ctx: &mut Ctx) {
     ));
     drain_timeouts(ctx);
 
-    let n: u32 = ctx.tier.pick(1500, 30_000);
+    let n: u32 = ctx.tier.pick(4000, 60_000);
     ctx.run_prop("cli", n, || crate::gen::tape(1024).prop_map(gen_case), judge);
     drain_timeouts(ctx);
 
